@@ -254,6 +254,11 @@ def scan_for_exceptions(obj: Any, seen: set[int], path: str = "context") -> None
     if isinstance(obj, BaseException):
         raise SecurityError(f"Exception instance forbidden at {path}: {type(obj)}")
 
+    if isinstance(obj, str | bytes | bytearray):
+        # note: iterating a str yields new 1-char str objects (new ids) for
+        #   characters beyond Latin-1, so the id-based cycle guard never fires
+        return
+
     if isinstance(obj, Mapping | Iterable):
         seen.add(obj_id)
         if isinstance(obj, Mapping):
